@@ -44,6 +44,9 @@ CheckCfgError(r) ==
 CheckRoundTrip(r) ==
   /\ Chk("C17_SecondEmissionIdentical", 0, Range(r.oc1) = Range(r.oc2))
   /\ Chk("C17_RuleConfigurationMatches", 0, r.rcOk)
+  \* what every rule holds in memory (every configurable attribute, by value, lists in order) under the original
+  \* style + files equals what it holds under the emitted file alone
+  /\ Chk("C17_SameEffectiveConfiguration", 0, r.effSame)
   /\ Chk("C19_NoCrash", 0, r.status = "ok")
 
 CheckEquiv(r) ==
